@@ -41,6 +41,8 @@ impl Rng {
 pub struct Out {
   w: std::io::BufWriter<Box<dyn Write>>,
   pub n: usize,
+  /// self-test: corrupt the implementation result of the op with this index (AGV_PLANT=<n>)
+  plant: Option<usize>,
 }
 impl Out {
   pub fn new(path: Option<&str>) -> Self {
@@ -51,10 +53,19 @@ impl Out {
     Out {
       w: std::io::BufWriter::with_capacity(1 << 20, inner),
       n: 0,
+      plant: std::env::var("AGV_PLANT").ok().and_then(|v| v.parse().ok()),
     }
   }
   /// one op: `{"op": name, "a": args, "r": impl_result}`
   pub fn op(&mut self, name: &str, args: Value, result: Value) {
+    let result = if self.plant == Some(self.n) && !name.starts_with("info:") && name != "tree" {
+      json!({"planted-by-selftest": result})
+    } else {
+      if self.plant == Some(self.n) {
+        self.plant = Some(self.n + 1); // skip ops that are not judged
+      }
+      result
+    };
     let v = json!({"op": name, "a": args, "r": result});
     serde_json::to_writer(&mut self.w, &v).unwrap();
     self.w.write_all(b"\n").unwrap();
